@@ -74,6 +74,12 @@ func genRFC6902Full(r *core.RNG, doc map[string]any) []any {
 	for n := r.Range(1, 4); n > 0; n-- {
 		switch r.Intn(9) {
 		case 0, 1:
+			if aka := ref.View(doc, ref.MAlsoKnownAs); len(aka) > 0 && r.Stream("aka-twice").Chance(1, 4) {
+				// also-known-as is not a protected member: RFC 6902 operations can make the list hold one URI twice, which the typed
+				// actions never do (their set semantics must still hold afterwards)
+				ops = append(ops, map[string]any{"op": "add", "path": "/" + ref.MAlsoKnownAs + "/" + core.Pick(r, []string{"-", "0", "1"}), "value": core.Pick(r, aka)})
+				continue
+			}
 			ops = append(ops, map[string]any{"op": "add", "path": fresh(), "value": genValue(r)})
 		case 2:
 			p := existing()
@@ -153,7 +159,9 @@ func genHostileRFC6902(r *core.RNG, doc map[string]any) []any {
 		"/service/0/serviceEndpoint", "/publicKey/1", "/publicKeys", "/services", "/publicKeyX", "/serviceEndpoint", "/public~0Key", "/public~1Key",
 		"/service~1", "", "/", "/publicKey/0/publicKeyJwk/x", "/service/0/id", "/alsoKnownAs", "/alsoKnownAs/0", "/note", "/n2", "/PublicKey", "/Service",
 		// pointers that do not start with a slash (not JSON pointers at all; a lenient library may still resolve them)
-		"publicKey", "service", "x/publicKey", "x/service", "x/publicKey/0", "x/service/0/id", "./publicKey", " /service", "#/publicKey"}
+		"publicKey", "service", "x/publicKey", "x/service", "x/publicKey/0", "x/service/0/id", "./publicKey", " /service", "#/publicKey",
+		// empty reference tokens: RFC 6901 pointers whose first token is "" (a member named "") - a tokeniser that collapses slashes reads the member behind
+		"//publicKey", "///service", "//publicKey/0", "//service/0/id", "/publicKey/", "/service//", "//", "///"}
 	pick := func() string {
 		switch r.Intn(4) {
 		case 0:
